@@ -482,3 +482,130 @@ def c06(m, run):
         if tv.bad:
             (rule, msg), cases = sorted(tv.bad.items(), key=lambda kv: -len(kv[1]))[0]
             run.note('RM1.removability-test-compares-two-points', tv.key, '%s [%d of %d tuples]' % (msg, len(cases), tv.n))
+
+
+# ====================================================================================== C05: A5.4 over knot order types
+def c05(m, run):
+    """helpers.knot_refinement touches knots through comparisons, differences compared with a tolerance and midpoints of adjacent
+    distinct knots: with the default knot list it is decided exactly per knot order type.  KR1: the returned knot vector is the sorted
+    merge of the old knots and of every refined knot (old distinct knots and the density-times bisected midpoints) repeated
+    degree - multiplicity times - no slot keeps its initial fill; SK3: the returned net has one defined cell per new knot."""
+    big = run.tier == 'thorough'
+    P, N = (5, 5) if big else (4, 4)
+    for lab in ('rows of points (curve / surface)', 'slabs of points (volume)'):
+        tk = Tally(run, 'KR1.refined-knot-vector-is-the-sorted-merge', 'helpers.knot_refinement :: %s' % lab,
+                   'degree 1..%d x clamped order types with n = p+1..p+%d x {density 1, density 2, one added knot inside the first span, an added knot on an existing knot plus one inside}; arithmetic zero tests forked' % (P, N))
+        tc = Tally(run, 'SK3.cells-defined', 'helpers.knot_refinement :: %s' % lab, tk.describe)
+        for p in range(1, P + 1):
+            for n in range(p + 1, p + N + 1):
+                for ranks in knot_order_types(p, n, True):
+                    lo_, hi_ = ranks[p], ranks[p] + 1
+                    for density, extra in ((1, ()), (2, ()), (1, (lo_ + 0.25,)), (1, (hi_, lo_ + 0.25))):
+                        dist = sorted(set(ranks[p:len(ranks) - p]) | set(extra))
+                        for _ in range(density):
+                            nxt = []
+                            for a, b in zip(dist, dist[1:]):
+                                nxt += [a, a + (b - a) / 2.0]
+                            nxt.append(dist[-1])
+                            dist = nxt
+                        X = []
+                        for k in dist:
+                            X += [k] * (p - ranks.count(k))
+                        want = sorted(list(ranks) + X)
+                        agg = {}
+
+                        def call(prefix, p=p, n=n, ranks=ranks, density=density, want=want, X=X, lab=lab, agg=agg, extra=extra):
+                            sk = SK(m, dict(STD_ABSTRACTED))
+                            sk.decisions = list(prefix)
+                            rows = pts(n, 3) if lab.startswith('rows') else [pts(2, 3) for _ in range(n)]
+                            res = {}
+                            try:
+                                kw = {'density': density}
+                                if extra:
+                                    kw['add_knot_list'] = [Ord(r) for r in extra]
+                                out = sk.call(m.func('helpers.knot_refinement'), [p, [Ord(r) for r in ranks], rows], kw)
+                                cp, kv = out
+                                bad = [i for i, c in enumerate(kv) if not isinstance(c, Ord)]
+                                if bad:
+                                    res['KR1'] = ('KR1', 'slots %s of the refined knot vector are not knots (initial fill or computed value): %r' % (bad[:4], [kv[i] for i in bad[:2]]))
+                                elif [c.rank for c in kv] != want:
+                                    res['KR1'] = ('KR1', 'refined knot vector has the order type %s, the sorted merge of old and new knots is %s' % ([c.rank for c in kv], want))
+                                if len(cp) != n + len(X):
+                                    res['SK3'] = ('SK3', 'refined net has %d cells, expected %d' % (len(cp), n + len(X)))
+                                else:
+                                    for i, c in enumerate(cp):
+                                        ok = shape_ok(c, 3) if lab.startswith('rows') else (isinstance(c, list) and len(c) == 2 and all(shape_ok(x, 3) for x in c))
+                                        if not ok:
+                                            res['SK3'] = ('SK3', 'cell %d of the refined net is not a defined point of the input shape' % i)
+                                            break
+                            except Violation as v:
+                                if v.rule == 'RAISE' and not X:
+                                    pass
+                                else:
+                                    res['SK3'] = (v.rule, '%s %s' % (v.msg, v.where()))
+                            except Unsupported as ex:
+                                res['SK3'] = ('UNSUPPORTED', str(ex))
+                            for k_, v_ in res.items():
+                                agg.setdefault(k_, v_)
+                            return (res.get('KR1') or res.get('SK3')), sk.trace
+                        explore(call, 256)
+                        tk.add((p, tuple(ranks), density, extra), agg.get('KR1'))
+                        tc.add((p, tuple(ranks), density, extra), agg.get('SK3'))
+        finish(tk, 'geomdl/helpers.py in helpers.knot_refinement')
+        finish(tc, 'geomdl/helpers.py in helpers.knot_refinement')
+
+
+# ====================================================================================== C04 / C06: knot vector updates over order types
+def _param_positions(ranks, p, n):
+    dist = sorted({r for r in ranks if ranks[p] <= r <= ranks[n]})
+    pos = []
+    for a, b in zip(dist, dist[1:]):
+        pos += [a, (a + b) / 2.0]
+    return pos            # the domain end is excluded: no insertion / removal there
+
+
+def c04_kv(m, run):
+    """helpers.knot_insertion_kv only copies knots: with the span the span search returns for u (OT1), the new knot vector is exactly
+    the sorted merge of the old one and r copies of u - for every order type, parameter position and admissible count"""
+    P, N = (5, 5) if run.tier == 'thorough' else (4, 4)
+    t = Tally(run, 'KI1.knot-vector-gains-sorted-copies', 'helpers.knot_insertion_kv',
+              'degree 1..%d x clamped order types with n = p+1..p+%d x every parameter on a knot or strictly between knots x count 1..degree - multiplicity' % (P, N))
+    for p in range(1, P + 1):
+        for n in range(p + 1, p + N + 1):
+            for ranks in knot_order_types(p, n, True):
+                for u in _param_positions(ranks, p, n):
+                    s = ranks.count(u)
+                    span = [i for i in range(p, n) if ranks[i] <= u < ranks[i + 1]][0]
+                    for r in range(1, p - s + 1):
+                        want = sorted(list(ranks) + [u] * r)
+
+                        def post(sk, out, want=want):
+                            if not all(isinstance(c, Ord) for c in out):
+                                raise Violation('KI1', 'a slot of the new knot vector is not a knot (initial fill): %r' % ([c for c in out if not isinstance(c, Ord)][:2],))
+                            if [c.rank for c in out] != want:
+                                raise Violation('KI1', 'new knot vector has order type %s, expected %s' % ([c.rank for c in out], want))
+                        t.add((p, tuple(ranks), u, r), run1(m, 'helpers.knot_insertion_kv', [[Ord(x) for x in ranks], Ord(u), span, r], {}, post))
+    finish(t, 'geomdl/helpers.py in helpers.knot_insertion_kv')
+
+
+def c06_kv(m, run):
+    """helpers.knot_removal_kv: with the span of the removed knot, the new knot vector is the old one without r copies of that knot"""
+    P, N = (5, 5) if run.tier == 'thorough' else (4, 4)
+    t = Tally(run, 'KRM1.knot-vector-loses-the-removed-copies', 'helpers.knot_removal_kv',
+              'degree 1..%d x clamped order types with n = p+2..p+%d x every interior knot x count 1..multiplicity' % (P, N))
+    for p in range(1, P + 1):
+        for n in range(p + 2, p + N + 1):
+            for ranks in knot_order_types(p, n, True):
+                for rk in sorted(set(ranks))[1:-1]:
+                    s = ranks.count(rk)
+                    span = max(i for i, x in enumerate(ranks) if x == rk)
+                    for r in range(1, s + 1):
+                        want = list(ranks)
+                        for _ in range(r):
+                            want.remove(rk)
+
+                        def post(sk, out, want=want):
+                            if not all(isinstance(c, Ord) for c in out) or [c.rank for c in out] != want:
+                                raise Violation('KRM1', 'new knot vector is %s, expected %s' % ([getattr(c, 'rank', c) for c in out], want))
+                        t.add((p, tuple(ranks), rk, r), run1(m, 'helpers.knot_removal_kv', [[Ord(x) for x in ranks], span, r], {}, post))
+    finish(t, 'geomdl/helpers.py in helpers.knot_removal_kv')
